@@ -680,6 +680,35 @@ def gen_history(rng, family):
     return ops
 
 
+def directed_histories():
+    """hand-written short histories run in every tier (worker 0): the situations DESIGN names"""
+    g = lambda k, sect, key, ci=0: {"op": k, "ci": ci, "fl": 0, "sect": sect, "key": key}
+    f = lambda sect, key, cis=0, cik=0: {"op": "find", "cis": cis, "cik": cik, "sect": sect, "key": key}
+    out = []
+    both = {"op": "parse", "text": "[S]\nKey=1\nKEY=2\n"}
+    one = {"op": "parse", "text": "[S]\nKey=7\n\n[T]\nx=\n"}
+    out.append([{"op": "reset"}, both, g("get", "S", "KEY"), g("get_int", "S", "KEY"), g("get_uint", "S", "KEY"),
+                f("S", "KEY"), g("get", "S", "key", 1), g("get", "s", "KEY"), g("get", "s", "KEY", 1), {"op": "dump"},
+                {"op": "gen", "all": 1}])
+    out.append([{"op": "reset"}, one, g("get", "S", "KEY"), g("get_int", "S", "KEY"), g("get_uint", "S", "KEY"),
+                f("S", "KEY"), f("s", "KEY", 1, 1), g("get", "S", "Key"), g("get", "s", "Key"), g("get", "T", "x"),
+                {"op": "gen", "all": 1}, {"op": "set", "fl": 0, "sect": "S", "key": "KEY", "val": "v"}])
+    out.append([{"op": "reset"}, one, {"op": "set_int", "fl": 0, "sect": "S", "key": "KEY", "num": 5}])
+    out.append([{"op": "reset"}, one, {"op": "set_uint", "fl": 0, "sect": "S", "key": "KEY", "num": 5}])
+    # new key into a section followed by blank lines and another section; grow/shrink around the padding
+    h = [{"op": "reset"}, one, {"op": "set", "fl": 0, "sect": "S", "key": "n", "val": "1"}, {"op": "dump"}]
+    for ln in (0, 13, 14, 15, 16, 17, 40, 15, 0, 200, 1):
+        h.append({"op": "set", "fl": 0, "sect": "S", "key": "n", "val": "v" * ln})
+        h.append(g("get", "S", "n"))
+    h.append({"op": "gen", "all": 1})
+    out.append(h)
+    for n in (-10, 10, SSIZE_MIN, SSIZE_MAX, 0):
+        out.append([{"op": "reset"}, {"op": "set_int", "fl": 0, "sect": "S", "key": "n", "num": n}, g("get_int", "S", "n")])
+    for n in (10, 9, U64_MAX, 10 ** 19):
+        out.append([{"op": "reset"}, {"op": "set_uint", "fl": 0, "sect": "S", "key": "n", "num": n}, g("get_uint", "S", "n")])
+    return out
+
+
 # ----------------------------------------------------------------------------
 # running
 # ----------------------------------------------------------------------------
@@ -760,6 +789,9 @@ def worker(job):
         for j in range(n):
             r = Rng(PROP, common.seed(), variant, widx, fam, j)
             hists.append((fam, j, gen_history(r, fam)))
+    if widx == 0:
+        for j, ops in enumerate(directed_histories()):
+            hists.append(("directed", j, ops))
     # run all histories of this worker through ONE driver process (restarted on crashes)
     cases = []
     for fam, j, ops in hists:
